@@ -514,6 +514,14 @@ def check(ctx):
         alloc = expr_str(strip(cal[0]["c"][1])) if cal else None
         det = {"first": [expr_str(x)[:20] for x in a["c"][1:]], "second": [expr_str(x)[:20] for x in b["c"][1:]], "alloc": alloc}
         ok = same_src and sizing and cap == "r" and alloc == "r" and expr_str(strip(b["c"][5])) == "wstring"
+    for c in calls:
+        cp = const_of(prog, c["c"][1])
+        if cp is None:
+            ctx.floor_failures.append("C18.Z5c: the code page %s is not a constant this check can evaluate, no verdict" % expr_str(c["c"][1])[:30])
+        else:
+            ctx.ob("C18.Z5c", "utf16_from_utf8: MultiByteToWideChar (line %d)" % c["l"][0], "arguments and environment entries are documented as "
+                   "UTF-8 and are converted as UTF-8 (code page 65001): under the ANSI code page every byte above 0x7f becomes a different "
+                   "character and the child does not receive the original strings", cp == 65001, {"code_page": cp})
     ctx.ob("C18.Z5", "utf16_from_utf8", "the conversion is given the same (string, size) that was sized, and writes into a buffer of exactly "
            "the returned element count", ok, det)
     ctx.floor("C18.Z1", 4)
